@@ -455,6 +455,72 @@ func raceReopen(k kind, goroutines, trials int) map[string]any {
 	return map[string]any{"stuck_trials": stuck, "not_closed_trials": notClosed, "min_admitted_after": minAfter, "trials": trials}
 }
 
+// raceVerdicts: the breaker is one failure short of opening; a failure report and a success report for the same key
+// arrive at the same moment (two overlapping checks of one endpoint). Whatever the outcome — open or closed — once the
+// endpoint works again a probe must be admitted after the timeout and successful probes must close the breaker.
+func raceVerdicts(k kind, trials int) map[string]any {
+	threshold := 0
+	{
+		b := k.mk()
+		for i := 0; i < 1000; i++ {
+			if ph, _, _, _ := b.Obs(); ph == 1 {
+				break
+			}
+			b.Fail()
+			threshold++
+		}
+	}
+	stuck, notClosed, opened := 0, 0, 0
+	for t := 0; t < trials; t++ {
+		b := k.mk()
+		for i := 0; i < threshold-1; i++ {
+			b.Fail()
+		}
+		var start int32
+		var wg, ready sync.WaitGroup
+		for g := 0; g < 2; g++ {
+			g := g
+			wg.Add(1)
+			ready.Add(1)
+			go func() {
+				defer wg.Done()
+				ready.Done()
+				for atomic.LoadInt32(&start) == 0 {
+				}
+				if g == 0 {
+					b.Fail()
+				} else {
+					b.Succ()
+				}
+			}()
+		}
+		ready.Wait()
+		atomic.StoreInt32(&start, 1)
+		wg.Wait()
+		if ph, _, _, _ := b.Obs(); ph != 0 {
+			opened++
+		}
+		// the endpoint works again
+		b.Tick(k.timeout + 2*time.Second)
+		after := 0
+		for i := 0; i < 16; i++ {
+			if b.Ask() {
+				after++
+				b.Succ()
+			}
+		}
+		if after == 0 {
+			stuck++
+		}
+		if ph, _, _, _ := b.Obs(); ph != 0 {
+			notClosed++
+		} else if !b.Ask() {
+			notClosed++
+		}
+	}
+	return map[string]any{"stuck_trials": stuck, "not_closed_trials": notClosed, "opened_trials": opened, "trials": trials, "threshold": threshold}
+}
+
 func main() {
 	tier := vlib.Tier()
 	thorough := tier == "thorough"
@@ -581,6 +647,8 @@ func main() {
 		c.Count(k.name + ".race")
 		c.Emit(map[string]any{"kind": "race-reopen", "b": k.name, "goroutines": 8, "trials": trials, "impl": raceReopen(k, 8, trials)})
 		c.Count(k.name + ".race-reopen")
+		c.Emit(map[string]any{"kind": "race-verdicts", "b": k.name, "trials": 10 * trials, "impl": raceVerdicts(k, 10*trials)})
+		c.Count(k.name + ".race-verdicts")
 		if k.name == "unifier" {
 			// the smallest valid configuration (one probe, one success closes): a single lost or stale count is fatal there
 			mcfg := unifier.DefaultConfig().CircuitBreaker
